@@ -15,13 +15,23 @@ import (
 )
 
 // memWriter is an in-memory hermes.OutWriter.
-type memWriter struct{ buf *bytes.Buffer }
+type memWriter struct {
+	buf     *bytes.Buffer
+	persist string
+}
 
 func (m memWriter) Write(s string) (int, error)      { return m.buf.WriteString(s) }
 func (m memWriter) WriteBytes(b []byte) (int, error) { return m.buf.Write(b) }
 func (m memWriter) WriteRune(r rune) (int, error)    { return m.buf.WriteRune(r) }
 func (m memWriter) WriteError(e error) (int, error)  { return m.buf.WriteString(e.Error()) }
-func (m memWriter) Close()                           {}
+func (m memWriter) Close() {
+	// a configuration file that the run generates inside the project folder is an input of later runs: it goes to disk
+	// as the library's own writer would put it there (result files stay in memory)
+	if m.persist != "" {
+		os.MkdirAll(filepath.Dir(m.persist), 0o755)
+		os.WriteFile(m.persist, m.buf.Bytes(), 0o644)
+	}
+}
 
 // RunResult is what one real run produced.
 type RunResult struct {
@@ -53,7 +63,10 @@ func RunSession(session *hermes.HermesSession, root string, args []string, logID
 			b = &bytes.Buffer{}
 			bufs[path] = b
 		}
-		return memWriter{b}, nil
+		if filepath.Base(path) == "config.yml" {
+			return memWriter{buf: b, persist: path}, nil
+		}
+		return memWriter{buf: b}, nil
 	}
 	if probe != nil {
 		hermes.VerifSetProbe(session, probe)
